@@ -27,11 +27,11 @@ def parseNat? (s : String) : Option Nat := s.toNat?
 def parseFilter (s : String) : Option Filter :=
   match s.splitOn "." with
   | ["L2", lc, lp, pb, d] => do
-      pure { id := ID_LZMA2, kind := .lzma2, props := ⟨← lc.toNat?, ← lp.toNat?, ← pb.toNat?⟩, dict := ← d.toNat? }
+      pure { id := ID_LZMA2, props := ⟨← lc.toNat?, ← lp.toNat?, ← pb.toNat?⟩, dict := ← d.toNat? }
   | ["L1", lc, lp, pb, d] => do
-      pure { id := ID_LZMA1, kind := .lzma1, props := ⟨← lc.toNat?, ← lp.toNat?, ← pb.toNat?⟩, dict := ← d.toNat? }
-  | ["D", dist] => do pure { id := ID_DELTA, kind := .delta, dist := ← dist.toNat? }
-  | ["B", id, start] => do pure { id := ← id.toNat?, kind := .bcj, start := ← start.toNat? }
+      pure { id := ID_LZMA1, props := ⟨← lc.toNat?, ← lp.toNat?, ← pb.toNat?⟩, dict := ← d.toNat? }
+  | ["D", dist] => do pure { id := ID_DELTA, dist := ← dist.toNat? }
+  | ["B", id, start] => do pure { id := ← id.toNat?, start := ← start.toNat? }
   | _ => none
 
 def parseChain (s : String) : Option Chain := (s.splitOn "+").mapM parseFilter
